@@ -39,7 +39,9 @@ func main() {
 		"or the specification is a per-type map, or the value is a container, or the outcome is an error; distinct = distinct " +
 		"(value, specification) texts. Families: bounded-exhaustive directive grammar per scalar value (flags x width x precision x 52 letters; quick tier: every third directive), " +
 		"every value x every letter of its documented set x {plain, alternate, alternate with width and precision}, " +
-		"flag order / repetition / delimiter grammar, containers x container directives, per-type format maps, radix round trips, seeded random"
+		"flag order / repetition / delimiter grammar, containers x container directives, values with one container instance at several positions " +
+		"(aliasing) x container letters, integer-range edge values x radix letters x flags x widths around the unpadded length, histories (one context " +
+		"reused over a sequence of values; a history counts once), per-type format maps, radix round trips, seeded random"
 	r := &runner{cfg: cfg, res: res, rng: lib.NewRng(cfg.Seed), tagCount: map[string]int{}}
 	r.em = newEmitter(cfg)
 	pcore.Do(func(c px.Context) {
@@ -107,6 +109,12 @@ func (r *runner) one(v Val, s Spec, family string, toCoq bool) Obs {
 			r.em.failing++
 		}
 		r.em.add(v, s, o)
+	}
+	if v.hasSharing() {
+		r.res.Count("shared-instance")
+		if toCoq || len(fs) > 0 || family != "shared" {
+			r.em.addShared(v, s, o)
+		}
 	}
 	if r.n%7919 == 1 {
 		r.res.Sample(map[string]interface{}{"value": v.String(), "spec": s.String(), "observed": o.String()})
@@ -217,6 +225,21 @@ func (r *runner) replay() {
 			before := len(r.res.Violations)
 			o := r.one(c.V, c.S, "replay", true)
 			fmt.Printf("  implementation => %s\n", o)
+			for _, v := range r.res.Violations[before:] {
+				fmt.Printf("  FAILS [%s] %s\n", v.Clause, v.What)
+			}
+			if len(r.res.Violations) == before {
+				fmt.Println("  the direct check accepts this case")
+			}
+		case "history":
+			var c hcase
+			lib.Remarshal(in, &c)
+			fmt.Printf("one context from %s, rendering in order %s, then each once more\n", c.S, c.Vs)
+			before := len(r.res.Violations)
+			first, second := r.session(c, "replay", true)
+			for i := range first {
+				fmt.Printf("  %s => first %s, again %s\n", c.Vs[i], first[i], second[i])
+			}
 			for _, v := range r.res.Violations[before:] {
 				fmt.Printf("  FAILS [%s] %s\n", v.Clause, v.What)
 			}
